@@ -400,6 +400,20 @@ fn run_wrapper(script: &Value) -> Vec<String> {
     if c.checksum() != want_ck {
         found.push(format!("checksum() is {:?}, specification says the one supplied in step {} (0 = none)", c.checksum().map(|c| c.to_hex()), want["checksum"]));
     }
+    // end to end: the chain keeps the supplied checksum for the stored code and for its copies
+    if let Some(ck) = want_ck {
+        let mut app = App::default();
+        let id = app.store_code(Box::new(w));
+        let copy = app.duplicate_code(id).unwrap_or(0);
+        let copy2 = app.duplicate_code(copy).unwrap_or(0);
+        for (what, i) in [("the stored code", id), ("its copy", copy), ("the copy of its copy", copy2)] {
+            match app.wrap().query_wasm_code_info(i) {
+                Ok(ci) if ci.checksum == ck => {}
+                Ok(ci) => found.push(format!("code info of {what} shows checksum {}, supplied was {}", ci.checksum.to_hex(), ck.to_hex())),
+                Err(_) => found.push(format!("code info of {what} cannot be queried")),
+            }
+        }
+    }
     found
 }
 
